@@ -73,6 +73,16 @@ Section Parsers.
     Fixpoint coerce_kvs (l : list (pyval * pyval)) : res (list (pyval * (pathterm pyval + pyval))) :=
       match l with [] => Ok [] | (k, v) :: r => let* x := try_path v in let* xs := coerce_kvs r in Ok ((k, x) :: xs) end.
 
+    Fixpoint coerce_tuple (l : list pyval) : res unit :=
+      match l with
+      | [] => Ok tt
+      | v :: r => match path_from_spec v with
+                  | Ok _ => Err TypeError
+                  | Err MalformedPath => coerce_tuple r
+                  | Err e => Err e
+                  end
+      end.
+
     Definition coerce (v : pyval) : res coerced :=
       match v with
       | VDict d =>
@@ -85,10 +95,8 @@ Section Parsers.
           end
       | VList l => let* items := coerce_items l in Ok (CSeq false items)
       | VTuple l =>
-          let* items := coerce_items l in
-          (* item assignment on a tuple *)
-          if existsb (fun x => match x with inl _ => true | inr _ => false end) items then Err TypeError
-          else Ok (CSeq true items)
+          (* item assignment on a tuple: the first item that is read as a path spec (or un-escaped) raises TypeError *)
+          let* _ := coerce_tuple l in Ok (CSeq true (map inr l))
       | _ => Ok (CVal v)
       end.
 
@@ -363,7 +371,8 @@ Section Parsers.
       match d with
       | [] => Ok (keep ++ moved, found)
       | (VStr k, v) :: r =>
-          if str_contains esc_code k then unescape_keys r keep (moved ++ [(VStr (str_replace esc_code "path" k), v)]) true
+          (* un-escaped in place (a new mapping in the same order): escaping is injective, so no two keys collide *)
+          if str_contains esc_code k then unescape_keys r (keep ++ [(VStr (str_replace esc_code "path" k), v)]) moved true
           else unescape_keys r (keep ++ [(VStr k, v)]) moved found
       | kv :: r => unescape_keys r (keep ++ [kv]) moved found      (* keys that are not strings are left alone *)
       end.
